@@ -187,7 +187,7 @@ def check(ctx):
         for ef in S.direct[q]:
             if ef.kind.startswith(("setattr", "delattr")):
                 continue
-            hit = _pose_storage_path(ef.target)
+            hit = _pose_storage_path(ef.target, ef.kind)
             if hit is None:
                 continue
             fresh = False     # reached pose storage through aliases only
@@ -281,12 +281,21 @@ def check(ctx):
                    target=fmt(b))
 
 
-def _pose_storage_path(t: T):
+CONTAINER_LEVEL = ("inplace-method.append", "inplace-method.extend",
+                   "inplace-method.insert", "inplace-method.pop",
+                   "inplace-method.remove", "inplace-method.clear",
+                   "inplace-method.sort", "inplace-method.reverse")
+
+
+def _pose_storage_path(t: T, kind: str = ""):
     """name of the pose-storage attribute if t is (an element / slice of) it"""
     cur = t
+    descended = False        # an element of the container is addressed
     for _ in range(12):
         if not isinstance(cur, T):
             return None
+        if cur.op in ("sub", "elem"):
+            descended = True
         if cur.op == "attr" and cur.args[1] in POSE_STORAGE:
             return cur.args[1]
         if cur.op in ("sub", "elem", "upd", "mut", "attr"):
@@ -307,7 +316,10 @@ def _pose_storage_path(t: T):
                 "builtins.list", "builtins.tuple", "copy.copy") or
                 (tm.callee_name(cur) or "").endswith(".copy")) and \
                 (cur.args[1] or tm.method_recv(cur) is not None):
-            # shallow copies share their elements
+            # shallow copies share their elements — but growing / shrinking
+            # / reordering the copy itself touches no shared object
+            if kind in CONTAINER_LEVEL and not descended:
+                return None
             cur = cur.args[1][0] if cur.args[1] else tm.method_recv(cur)
             continue
         return None
